@@ -1,6 +1,20 @@
-(* C04 — wire interface. *)
+(* C04 — wire interface.
+
+   req   <method> <query> ( ( <name> <value> ) ... ) <client> ( <chunk> ... )   -> <wsgi view> <asgi view>
+   resp  <recipe>                                                             -> <wsgi response> <asgi response>
+   diff  <text>                                                               -> "same"
+   app   <lim> ( ( <cp> <class> ) ... ) <tree> <method> <root> <path> ( ( <name> <value> ) ... ) ( ( <text> ( b ... ) ) ... )
+           tree := ( "leaf"  ( "fixed" <recipe> ) )             a view that answers with the recipe
+                 | ( "leaf"  ( "echo" <name> <status> ) )       a view that writes what it sees into a text/plain body
+                 | ( "route" ( ( <route text> tree ) ... ) )    Router
+                 | ( "mount" ( ( <prefix> tree ) ... ) )        Subpaths
+                 | ( "hosts" ( ( <pattern number> tree ) ... ) ) Hosts; the last argument of the case is the table of
+                                                                re.fullmatch answers, one row per text (C09)
+         -> <wsgi answer> <asgi answer>     each ( status headers body ) | ( "nostart" ) | ( "exc" name ) | ( "stuck" )
+          | ( "cfg" )                       a Route of the tree cannot be constructed *)
 From Coq Require Import List NArith ZArith Bool.
-From Baize Require Import Lib.Wire Lib.Order C02.Model C02.IO Resp.Model Resp.IO C04.Model.
+From Baize Require Import Lib.Wire Lib.Order C02.Model C02.IO Resp.Model Resp.IO C04.Model C04.Apps.
+From Baize Require C08.IO.
 Import ListNotations.
 
 Definition rd_request (c : list sx) : option request :=
@@ -21,6 +35,122 @@ Definition show_resp (o : option (nat * list header * bytes)) : sx :=
   match o with
   | Some (st, hs, body) => Lst [of_nat st; show_headers hs; Str body]
   | None => Lst [tag (lit "nostart")]
+  end.
+
+(* ---------- application trees ---------- *)
+
+Definition sep : bytes := [124%N].
+
+Definition value_text (v : C08.Model.value) : bytes :=
+  match v with
+  | C08.Model.VStr t => lit "s:" ++ t
+  | C08.Model.VInt n => lit "i:" ++ dec n
+  | C08.Model.VDec c k => lit "d:" ++ C08.Model.dec_fmt c k
+  | C08.Model.VUuid n => lit "u:" ++ C08.Model.uuid_fmt n
+  | C08.Model.VDate y m d => lit "t:" ++ C08.Model.date_fmt y m d
+  end.
+
+(* "-" without path parameters, else name=kind:text; for each one, sorted by name *)
+Definition params_text (o : option C08.Model.params) : bytes :=
+  match o with
+  | None => lit "-"
+  | Some ps => flat_map (fun p => fst p ++ [61%N] ++ value_text (snd p) ++ [59%N]) (sort_by C08.IO.param_leb ps)
+  end.
+
+Definition headers_text (h : hstore) : bytes :=
+  flat_map (fun p => fst p ++ lit ": " ++ snd p ++ [10%N]) (sort_headers h).
+
+(* PlainTextResponse("|".join([name, method, root path, path, path parameters, headers]), status) *)
+Definition echo_view (name : bytes) (status : nat) (v : seen) : recipe :=
+  RSmall (bare status)
+         (name ++ sep ++ sn_method v ++ sep ++ sn_root v ++ sep ++ sn_path v ++ sep
+          ++ params_text (sn_params v) ++ sep ++ headers_text (sn_headers v))
+         (lit "text/plain") (lit "utf-8").
+
+Definition rd_view (items : list sx) : option (seen -> recipe) :=
+  match items with
+  | [Str kind; rc] =>
+      if bytes_eqb kind (lit "fixed") then
+        match rd_recipe rc with Some r => Some (fun _ => r) | None => None end
+      else None
+  | [Str kind; Str name; Num st] =>
+      if bytes_eqb kind (lit "echo") then Some (echo_view name (Z.to_nat st)) else None
+  | _ => None
+  end.
+
+Section RdApp.
+  Variable ucls : N -> N.
+
+  Fixpoint rd_app (s : sx) : option (app nat) :=
+    match s with
+    | Lst [Str kind; Lst items] =>
+        if bytes_eqb kind (lit "leaf") then
+          match rd_view items with Some v => Some (Leaf v) | None => None end
+        else
+          let subs :=
+            (fix go (l : list sx) : option (list (sx * app nat)) :=
+               match l with
+               | [] => Some []
+               | Lst [key; t] :: r =>
+                   match rd_app t, go r with
+                   | Some a, Some rest => Some ((key, a) :: rest)
+                   | _, _ => None
+                   end
+               | _ :: _ => None
+               end) items in
+          match subs with
+          | None => None
+          | Some subs =>
+              if bytes_eqb kind (lit "route") then
+                option_map Route
+                ((fix comp (l : list (sx * app nat)) : option (list (list C08.Model.seg * app nat)) :=
+                   match l with
+                   | [] => Some []
+                   | (key, a) :: r =>
+                       match C08.Model.compile_route ucls (sx_s key), comp r with
+                       | inl segs, Some rest => Some ((segs, a) :: rest)
+                       | _, _ => None
+                       end
+                   end) subs)
+              else if bytes_eqb kind (lit "mount") then
+                Some (Mount (map (fun e => (sx_s (fst e), snd e)) subs))
+              else if bytes_eqb kind (lit "hosts") then
+                Some (HostSwitch (map (fun e => (Z.to_nat (sx_z (fst e)), snd e)) subs))
+              else None
+          end
+    | _ => None
+    end.
+End RdApp.
+
+Definition show_obs (o : obs) : sx :=
+  match o with
+  | OResp st hs body => Lst [of_nat st; show_headers hs; Str body]
+  | ONoStart => Lst [tag (lit "nostart")]
+  | ORaised C09.Model.KeyError => Lst [tag (lit "exc"); tag (lit "KeyError")]
+  | ORaised C09.Model.RuntimeError => Lst [tag (lit "exc"); tag (lit "RuntimeError")]
+  | OStuck => Lst [tag (lit "stuck")]
+  end.
+
+Definition row_of_sx (s : sx) : bytes * list bool :=
+  match s with
+  | Lst [Str t; Lst bs] => (t, map sx_b bs)
+  | _ => ([], [])
+  end.
+
+Definition run_app (c : list sx) : list sx :=
+  match c with
+  | [Num lim; Lst cl; tree; Str method; Str root; Str path; Lst hs; Lst rows] =>
+      let ucls := C08.IO.lookup_cls (map C08.IO.cls_of_sx cl) in
+      match rd_app ucls tree with
+      | None => [Lst [tag (lit "cfg")]]
+      | Some a =>
+          let rq := {| aq_request := {| rq_method := method; rq_query := []; rq_headers := map rd_header hs;
+                                        rq_client := None; rq_body := [] |};
+                       aq_root := root; aq_path := path |} in
+          let fm := C09.Model.table_fullmatch (map row_of_sx rows) in
+          [show_obs (serve_wsgi fm (Z.to_N lim) rq a); show_obs (serve_asgi fm (Z.to_N lim) rq a)]
+      end
+  | _ => [tag (lit "badcase")]
   end.
 
 Definition run_case (c : list sx) : list sx :=
@@ -46,6 +176,7 @@ Definition run_case (c : list sx) : list sx :=
         | _ => [tag (lit "badcase")]
         end
       else if bytes_eqb kind (lit "diff") then [tag (lit "same")]
+      else if bytes_eqb kind (lit "app") then run_app rest
       else [tag (lit "badcase")]
   | _ => [tag (lit "badcase")]
   end.
